@@ -19,7 +19,7 @@ from fractions import Fraction
 import numpy as np
 
 from . import engine
-from .symnp import patched, object_livepoints
+from .symnp import patched, object_livepoints, patched_extra_only
 
 ROOT = os.path.dirname(os.path.dirname(os.path.abspath(__file__)))
 
@@ -170,6 +170,9 @@ class PropertyRun:
             st.enter_context(patched(mods, unit.extra_patches))
             if unit.object_lp:
                 st.enter_context(object_livepoints())
+        elif unit.extra_patches:
+            mods = [importlib.import_module(m) for m in unit.extra_patches]
+            st.enter_context(patched_extra_only(mods, unit.extra_patches))
         return st
 
     def run_unit(self, unit):
